@@ -103,6 +103,23 @@ class DictInterp:
                 if key not in base:
                     raise KeyErr(key)
                 return base.pop(key)
+            if isinstance(f, ast.Attribute) and f.attr == 'update' and len(e.args) == 1 and not e.keywords:
+                base = self.ev(f.value)
+                other = self.ev(e.args[0])
+                if not isinstance(base, dict) or not isinstance(other, dict):
+                    self.fail(e)
+                base.update(other)      # in place: aliasing is part of what is being decided
+                return None
+            if isinstance(f, ast.Attribute) and f.attr == 'setdefault' and len(e.args) == 2:
+                base = self.ev(f.value)
+                if not isinstance(base, dict):
+                    self.fail(e)
+                return base.setdefault(self.ev(e.args[0]), self.ev(e.args[1]))
+            if isinstance(f, ast.Attribute) and f.attr == 'items' and not e.args:
+                base = self.ev(f.value)
+                if not isinstance(base, dict):
+                    self.fail(e)
+                return list(base.items())
             if isinstance(f, ast.Attribute) and f.attr == 'copy' and not e.args:
                 return dict(self.ev(f.value))
             if isinstance(f, ast.Attribute) and f.attr == 'get' and 1 <= len(e.args) <= 2:
